@@ -167,6 +167,7 @@ VARIANTS = [
     keep('P-journal-offset-plain-add', (J, "        self.__currentOffset += len(cmdData)", "        self.__currentOffset = self.__currentOffset + len(cmdData)")),
 
     # ------------------------------------------------------------------ property-breaking variants
+    brk('B-stale-term-ae-accepted', ['C01'], 'R-append-gate', (S, "        if message['type'] == 'append_entries' and message['term'] >= self.__raftCurrentTerm:", "        if message['type'] == 'append_entries':")),
     brk('B-leader-append-no-plus1', ['C01'], 'R-leader-append-position', (S, "                idx, term = self.__getCurrentLogIndex() + 1, self.__raftCurrentTerm\n\n                if self.__conf.dynamicMembershipChange:", "                idx, term = self.__getCurrentLogIndex(), self.__raftCurrentTerm\n\n                if self.__conf.dynamicMembershipChange:")),
     brk('B-no-noop-on-election', ['C03'], 'R-leader-append-position', (S, "        self.__raftLog.add(_bchr(_COMMAND_TYPE.NO_OP), idx, term)\n        self.__noopIDx = idx", "        self.__noopIDx = idx")),
     brk('B-prev-not-adjacent', ['C04'], 'R-sender-prev-adjacent', (S, "        prevIndex = nextNodeIndex - 1\n        entries = self.__getEntries(prevIndex, 1)", "        prevIndex = nextNodeIndex - 2\n        entries = self.__getEntries(prevIndex, 1)")),
